@@ -18,6 +18,7 @@ class Report:
         self.conditions = []       # dicts: name, engine, verdict, secs, paths, detail
         self.violations = []       # dicts: harness, call, replay
         self.known = []            # strings
+        self.known_hits = {}
         self.notes = []
         self.assumptions = []
         self.functions = set()
@@ -50,8 +51,11 @@ class Report:
         print(f'  harness={harness} call={call} {detail[:300]}')
         sys.stdout.flush()
 
-    def known_finding(self, what):
-        if what not in self.known:
+    def known_finding(self, what, key=None):
+        """one line per listed finding (key = the finding's text); further hits of the same finding are only counted"""
+        key = key or what
+        self.known_hits[key] = self.known_hits.get(key, 0) + 1
+        if self.known_hits[key] == 1:
             self.known.append(what)
             print(f'KNOWN-FINDING: property={self.pid} {what}')
             sys.stdout.flush()
@@ -108,6 +112,7 @@ class Report:
             solver_cpu_s=round(self.solver_s, 1),
             inconclusive_items=[dict(name=x['name'], why=x['detail']) for x in incon][:60],
             known_findings_hit=self.known,
+            known_finding_hits=self.known_hits,
             notes=self.notes[:40],
             repo_fingerprint=repo_fingerprint(),
             exhaustive=False,
